@@ -798,7 +798,7 @@ def finish_normal(eng, c, result, entry_locals, pre_heap, module):
     for r in c.raises:
         if r["iff"] and r["when"] is not None:
             g = bm.not_(eval_in_pre(eng, c, r["when"], entry_locals, pre_heap, module))
-            eng.oblige("%s/raises-iff:%s" % (eng.cur_short, r["label"]), zb(g), "ensures")
+            eng.oblige("%s/raises-iff:%s" % (eng.cur_short, r["label"]), zb(g), "ensures", extra={"clause": "not old(%s)" % ast.unparse(r["when"])})
     if c.opts.get("fresh_result") and isinstance(result, SV) and isinstance(result.sort, (Ref, ListOf, MapOf)):
         eng.oblige("%s/ensures:result_is_fresh" % eng.cur_short, zr(result.t) > z3.Int("alloc0"), "ensures")
     for label, n in c.ensures:
